@@ -139,6 +139,12 @@ impl Session {
     ) -> Response {
         let bytes = rx.as_mut_for_read();
         if let Ok(encrypted_data) = EncryptedDataPayload::parse(bytes) {
+            // An uplink frame is never meant for an end-device. Without this check the device's
+            // own uplink, replayed to it, passes the MIC (computed with the frame's direction
+            // bit under the same NwkSKey) and would be accepted as a downlink.
+            if encrypted_data.is_uplink() {
+                return Response::NoUpdate;
+            }
             {
                 // Drop oversized packets which exceed the maximum allowed
                 // transmission time defined by PHY layer.
